@@ -3,6 +3,7 @@
 //verif:pkgs github.com/filecoin-project/go-jsonrpc/auth ./api/rpc/perms ./libs/authtoken
 //verif:init github.com/celestiaorg/celestia-node/api/rpc/perms
 //verif:replace github.com/cristalhq/jwt/v5.Parse github.com/celestiaorg/celestia-node/api/rpc.verifJWTParse
+//verif:replace github.com/cristalhq/jwt/v5.ParseNoVerify github.com/celestiaorg/celestia-node/api/rpc.verifJWTParseNoVerify
 //verif:replace (*github.com/cristalhq/jwt/v5.Token).Claims github.com/celestiaorg/celestia-node/api/rpc.verifClaims
 //verif:replace encoding/json.Unmarshal github.com/celestiaorg/celestia-node/api/rpc.verifUnmarshal
 //verif:replace time.Now github.com/celestiaorg/celestia-node/api/rpc.verifNow
@@ -49,17 +50,35 @@ var (
 	verifVerifier jwt.Verifier
 )
 
+// the node's verifier: an ideal signature verdict
 type verifVer struct{ jwt.Verifier }
 
-func verifJWTParse(raw []byte, v jwt.Verifier) (*jwt.Token, error) {
-	verifParsed++
-	if v != verifVerifier || string(raw) != "the-token" {
-		return nil, errors.New("jwt: wrong verifier or token bytes")
-	}
+func (*verifVer) Algorithm() jwt.Algorithm { return jwt.HS256 }
+func (*verifVer) Verify(t *jwt.Token) error {
 	if !verifSigOK {
-		return nil, errors.New("jwt: signature is not valid")
+		return errors.New("jwt: signature is not valid")
+	}
+	return nil
+}
+
+// the library's two entry points: decoding only, and decoding + verification
+func verifJWTParseNoVerify(raw []byte) (*jwt.Token, error) {
+	verifParsed++
+	if string(raw) != "the-token" {
+		return nil, errors.New("jwt: unexpected token bytes")
 	}
 	return &jwt.Token{}, nil
+}
+
+func verifJWTParse(raw []byte, v jwt.Verifier) (*jwt.Token, error) {
+	t, err := verifJWTParseNoVerify(raw)
+	if err != nil {
+		return nil, err
+	}
+	if err := v.Verify(t); err != nil {
+		return nil, err
+	}
+	return t, nil
 }
 
 func verifClaims(t *jwt.Token) []byte { return []byte("claims") }
